@@ -19,6 +19,7 @@
 -/
 import SqlglotModel.Proofs.TreeCopyShape
 import SqlglotModel.Proofs.TreeWalk
+import SqlglotModel.Proofs.TreeBuilders
 import SqlglotModel.Generated.C09
 
 namespace SqlglotModel.Properties.C09
@@ -151,6 +152,48 @@ theorem expand_nothing_to_do_still_copies (F : HashFns H) (fuel : Nat) (h h' : H
   rw [e] at hn
   exact Nat.lt_irrefl _ hn
 
+/-- **The builder layer under copy=True** (`_apply_builder` … `_apply_cte_builder`, `_apply_set_operation`, for the shape
+    in which `copy` is threaded to the receiver copy AND to the argument parse): for every heap, every receiver tree and
+    every argument tree, and whatever fresh wrapper nodes the builder assembles (`Where`, `And`, `CTE`, `With`, a set
+    operation …) — every pre-existing cell is unchanged (receiver, argument, any other tree: args, pointers, caches), the
+    invariant holds, and the result shares no node with the receiver or with the argument. -/
+theorem builder_copy_both_pure (F : HashFns H) (fuel : Nat) (h h3 : Heap H) (base nx : Nat) (inst arg c : Id)
+    (assemble : Nat → Id → Id → List BOp) (hI : Inv F h) (hf : FreshFrom h base) (hi : base > inst) (ha : base > arg)
+    (hreg : ∀ nx2 c a, base ≤ c → base ≤ a → base ≤ nx2 → ∀ op, op ∈ assemble nx2 c a → InRegionB (fun m => base ≤ m) op)
+    (hadm : ∀ h2 nx2 c a, Inv F h2 → FreshFrom h2 nx2 → AdmRunB fuel h2 (assemble nx2 c a))
+    (he : builderCopyBoth fuel h base inst arg assemble = some (h3, nx, c)) :
+    (∀ m, m < base → h3 m = h m) ∧ Inv F h3 ∧ (∀ m, Reach h3 c m → ¬ Reach h3 inst m ∧ ¬ Reach h3 arg m) :=
+  let x := builderCopyBoth_pure F hI hf hi ha hreg hadm he
+  ⟨x.1, x.2.1, x.2.2.2⟩
+
+/-- the two concrete assemblies (`q.where(cond)` on a query without WHERE; `q.with_(alias, as_=expr)`) stay inside the
+    fresh region, as `builder_copy_both_pure` requires -/
+theorem where_and_cte_assemblies_in_region (base nx : Nat) (c a : Id) (hc : base ≤ c) (ha : base ≤ a) (hn : base ≤ nx) :
+    (∀ op, op ∈ whereAssembly nx c a → InRegionB (fun m => base ≤ m) op) ∧
+    (∀ op, op ∈ cteAssembly nx c a → InRegionB (fun m => base ≤ m) op) := by
+  constructor
+  · intro op hop
+    simp only [whereAssembly, List.mem_cons, List.mem_nil_iff, or_false] at hop
+    rcases hop with e | e | e <;> subst e <;> simp [InRegionB, itemOfValue] <;> omega
+  · intro op hop
+    simp only [cteAssembly, List.mem_cons, List.mem_nil_iff, or_false] at hop
+    rcases hop with e | e | e | e | e <;> subst e <;> simp [InRegionB, itemOfValue] <;> omega
+
+/-- which copy decisions each `_apply_*` helper makes, re-extracted (ast) on every run: the receiver is always
+    `maybe_copy(instance, copy)`; `_apply_builder` / `_apply_list_builder` / `_apply_child_list_builder` use an Expr
+    argument as-is (documented); the conjunction, CTE and set-operation builders thread `copy=copy` into the argument
+    parse; and every public method that calls a helper passes `copy=copy` on. A dropped `copy=copy` (C09-6) breaks this
+    build. -/
+theorem builders_thread_copy :
+    SqlglotModel.Generated.C09.builderCopyDecisions =
+      ["_apply_builder: maybe_copy(instance;copy=copy), maybe_parse(expression;copy=-)",
+       "_apply_child_list_builder: maybe_copy(instance;copy=copy), maybe_parse(expression;copy=-)",
+       "_apply_conjunction_builder: and_(*filtered;copy=copy), maybe_copy(instance;copy=copy), maybe_copy(instance;copy=copy)",
+       "_apply_cte_builder: _apply_child_list_builder(cte;copy=copy), maybe_parse(alias;copy=-), maybe_parse(as_;copy=copy)",
+       "_apply_list_builder: maybe_copy(instance;copy=copy), maybe_parse(expression;copy=-)",
+       "_apply_set_operation: maybe_parse(e;copy=copy)"] ∧
+    SqlglotModel.Generated.C09.builderCallSitesNotThreadingCopy = [] := by decide +kernel
+
 /-- every `return` of `exp.expand` (its own body, not the nested `_expand`) goes through the copying transform, and
     `lineage` hands `maybe_parse` the caller's `copy` flag unconditionally — re-extracted (ast) on every run. A new
     return path (a fast path returning the input) or a conditional copy breaks this build. -/
@@ -188,6 +231,14 @@ theorem copy_false_sites_allowed :
 example : ((run freeHash 8 empty [.new 0 "paren" false, .new 1 "literal" true, .set 1 "this" (.leaf (.str "1")) none true,
       .set 0 "this" (.node 1) none true]).bind (fun h => opTransformCopy 8 idFun h 2 0)).map (fun r => (r.2.1, r.2.2)) =
     some (4, Value.node 2) := by decide +kernel
+
+/-- non-vacuity of `builder_copy_both_pure`: `q.where(cond)` in the model — Select(0; expressions=[col 1]) and a condition
+    Literal 2; receiver copy in cells 3,4, argument copy in cell 5, the fresh `Where` in cell 6 -/
+example : ((run freeHash 8 empty [.new 0 "select" false, .new 1 "column" false, .new 2 "literal" true,
+      .set 2 "this" (.leaf (.str "1")) none true, .set 0 "expressions" (.list [.node 1]) none true]).bind
+      (fun h => builderCopyBoth 8 h 3 0 2 whereAssembly)).map
+      (fun r => (r.2.1, r.2.2, getKey "where" (r.1 3).args, getKey "this" (r.1 6).args, getKey "where" (r.1 0).args)) =
+    some (6, 3, some (.one 6), some (.one 5), none) := by decide +kernel
 
 /-! ### non-vacuity -/
 
